@@ -1177,12 +1177,26 @@ Fixpoint wrap (ws : list wrapper) (c : callable) : callable :=
 Lemma underlying_wrap : forall ws c, underlying (wrap ws c) = underlying c.
 Proof. induction ws as [|[] ws IH]; intros c; cbn; auto. Qed.
 
-Lemma callable_is_wrap : forall c, exists ws f, c = wrap ws (CFun f).
+(* function objects: plain functions / callable objects and the closures built by _transform *)
+Definition function_object (c : callable) : Prop :=
+  match c with CFun _ | CWrap _ _ _ => True | _ => False end.
+
+Lemma callable_is_wrap : forall c, exists ws b, c = wrap ws b /\ function_object b.
 Proof.
-  induction c as [f|c [ws [f ->]]|c [ws [f ->]]].
-  - exists [], f. reflexivity.
-  - exists (WPartial :: ws), f. reflexivity.
-  - exists (WMethod :: ws), f. reflexivity.
+  induction c as [f|c [ws [b [-> Hb]]]|c [ws [b [-> Hb]]]|id ad c _].
+  - exists [], (CFun f). split; [reflexivity|exact I].
+  - exists (WPartial :: ws), b. split; [reflexivity|exact Hb].
+  - exists (WMethod :: ws), b. split; [reflexivity|exact Hb].
+  - exists [], (CWrap id ad c). split; [reflexivity|exact I].
+Qed.
+
+(* a closure handed out by adapt_func / restore_func does not inherit the native mark of what it
+   wraps: it is native only if it was registered itself *)
+Theorem closure_not_native_by_inheritance : forall fl ws ws' id ad c,
+  fl id = false -> is_native (register_native fl (wrap ws c)) (wrap ws' (CWrap id ad c)) = Nat.eqb id (underlying c).
+Proof.
+  intros fl ws ws' id ad c H. unfold is_native, register_native. rewrite !underlying_wrap. cbn [underlying].
+  destruct (Nat.eqb id (underlying c)); [reflexivity|exact H].
 Qed.
 
 Theorem native_as_is : forall fl c, is_native fl c = true -> adapt_func fl c = Same c.
@@ -1191,10 +1205,10 @@ Proof. intros fl c H. unfold adapt_func. rewrite H. reflexivity. Qed.
 Theorem not_native_wrapped : forall fl c, is_native fl c = false -> adapt_func fl c = Wrapped c.
 Proof. intros fl c H. unfold adapt_func. rewrite H. reflexivity. Qed.
 
-Theorem registered_found_through_wrappers : forall fl ws ws' f,
-  is_native (register_native fl (wrap ws (CFun f))) (wrap ws' (CFun f)) = true.
+Theorem registered_found_through_wrappers : forall fl ws ws' b,
+  is_native (register_native fl (wrap ws b)) (wrap ws' b) = true.
 Proof.
-  intros. unfold is_native, register_native. rewrite !underlying_wrap. cbn. rewrite Nat.eqb_refl. reflexivity.
+  intros. unfold is_native, register_native. rewrite !underlying_wrap. rewrite Nat.eqb_refl. reflexivity.
 Qed.
 
 Theorem register_same_underlying : forall fl c c', underlying c' = underlying c ->
@@ -1673,7 +1687,8 @@ Theorem model_holds_session : forall ops adapting q,
                 (expect_recv_dom (run_ops ops) adapting q) = true.
 Proof.
   intros ops adapting q. unfold holds_session, expect_recv_dom, adapt_func. rewrite (registry_history ops q).
-  destruct (last_op_on (underlying q) ops None) as [[]|]; destruct adapting; reflexivity.
+  destruct (last_op_on (underlying q) ops None) as [[]|]; destruct adapting; cbn [andb adapted_is_same];
+    rewrite ?Bool.eqb_reflx; reflexivity.
 Qed.
 
 (* what the function sees when the outcome of adapt_func is called with one internal graph
